@@ -151,6 +151,8 @@ theorem cfun_array_pop : LibSrc.cfun_array_pop = "(int32_t v1, Janet *v2) { jane
 theorem cfun_array_peek : LibSrc.cfun_array_peek = "(int32_t v1, Janet *v2) { janet_fixarity(v1, 1); JanetArray *v3 = janet_getarray(v2, 0); return janet_array_peek(v3); }" := rfl
 /-- src/core/array.c cfun_array_push -/
 theorem cfun_array_push : LibSrc.cfun_array_push = "(int32_t v1, Janet *v2) { janet_arity(v1, 1, -1); JanetArray *v3 = janet_getarray(v2, 0); if (INT32_MAX - v1 + 1 <= v3->count) { janet_panic(\"array overflow\"); } int32_t v4 = v3->count - 1 + v1; janet_array_ensure(v3, v4, 2); if (v1 > 1) memcpy(v3->data + v3->count, v2 + 1, (size_t)(v1 - 1) * sizeof(Janet)); v3->count = v4; return v2[0]; }" := rfl
+/-- src/core/buffer.c cfun_buffer_slice -/
+theorem cfun_buffer_slice : LibSrc.cfun_buffer_slice = "(int32_t v1, Janet *v2) { JanetByteView v3 = janet_getbytes(v2, 0); JanetRange v4 = janet_getslice(v1, v2); JanetBuffer *v5 = janet_buffer(v4.end - v4.start); if (v5->data) memcpy(v5->data, v3.bytes + v4.start, v4.end - v4.start); v5->count = v4.end - v4.start; return janet_wrap_buffer(v5); }" := rfl
 /-- boot.janet each-template -/
 theorem boot_each_template : LibSrc.boot_each_template = "(defn- each-template [v1 v2 v3 v4] (with-syms [v5] (def v6 (if (idempotent? v2) v2 (gensym))) ~(do ,(unless (= v6 v2) ~(def ,ds ,inx)) (var ,k (,next ,ds nil)) (while (,not= nil ,k) (def ,binding ,(case v3 :each ~(,in ,ds ,k) :keys v5 :pairs ~[,k (,in ,ds ,k)])) ,;body (set ,k (,next ,ds ,k))))))" := rfl
 /-- boot.janet median-of-three -/
